@@ -675,6 +675,11 @@ pub fn corpus() -> Vec<(Registry, (u32, u32))> {
         (reg(&[(0, 1, Some(vec![(1, R::full()), (2, R::full())])), (1, 1, Some(vec![])), (1, 2, Some(vec![])),
                (2, 2, Some(vec![(2, R::singleton(2u32)), (1, R::singleton(1u32))])),
                (2, 1, Some(vec![(2, R::singleton(1u32)), (3, R::empty())]))]), (0, 1)),
+        // a learned incompatibility that is the first cause of a node and occurs again below that node's second cause
+        (reg(&[(1, 8, Some(vec![])), (2, 3, Some(vec![(1, R::full())])), (3, 2, Some(vec![])), (3, 4, Some(vec![(1, R::between(6u32, 8u32))])),
+               (4, 3, Some(vec![(2, R::higher_than(9u32))])), (4, 5, Some(vec![(1, R::higher_than(8u32)), (3, R::higher_than(4u32))])),
+               (5, 2, Some(vec![(4, R::strictly_lower_than(1u32))])), (5, 3, Some(vec![(3, R::full()), (4, R::between(1u32, 6u32))])),
+               (0, 4, Some(vec![(2, R::full()), (5, R::full())]))]), (0, 4)),
         // two picks at one decision level (an unavailable version in between) with a queued package narrowed again in the
         // second window by a remembered incompatibility
         ({ let mut items: Vec<(u32, u32, Option<Vec<(u32, R)>>)> = vec![
